@@ -408,6 +408,25 @@ def effects(chk, P):
     f = P.fn(DVI + "::swapValue")
     _must(chk, f, lambda e: e["k"] == "call" and e.get("fn", "").endswith("::swap") and field_of(call_obj(e)) == DVI + "::m_value", "EFFECT", "m_value.swap", "variable swaps value pointers")
     _must(chk, f, _assign(DVI + "::m_timeLastUpdated", lambda r: _is_var(r, f.d["params"][0][0])), "EFFECT", "m_timeLastUpdated", "time stamp updated on swap")
+    _must(chk, f, _inc(DVI + "::m_valueVersion"), "EFFECT", "++m_valueVersion", "a swap changes the variable's value: its value version must change")
+    # every swapped variable's dependents are notified before autoUpdateDiscreteVariables returns
+    f = P.fn(SI + "::autoUpdateDiscreteVariables")
+    nf = P.fn(DVI + "::noteValueSwapped")
+    _must(chk, nf, _notify(DVI + "::m_dependents"), "EFFECT", "notify-dependents", "dependents of a swapped variable are invalidated")
+    for b, i, e in list(f.calls(CEI + "::swapValue")):
+        site = "%s:%d" % (f.file, e["line"])
+        dvar = var_of(call_args(e)[1]) if len(call_args(e)) > 1 else None
+        # the swapped variable is recorded (push_back(&dv)) on every path, and the recorded list is walked with noteValueSwapped
+        rec = lambda q: q["k"] == "call" and q.get("fn", "").endswith("::push_back") and bool(sx_find(q["x"], lambda y: y[0] == "un" and y[1] == "&" and var_of(y[2]) == dvar))
+        direct = lambda q: is_call(q, DVI + "::noteValueSwapped") and var_of(call_obj(q)) == dvar
+        p1 = f.path_exists((b, i), "exit", lambda q: rec(q) or direct(q))
+        chk.judge(p1 is None, "EFFECT", f.id + ":swapped-var-recorded", site, "every swapped variable is recorded for (or directly given) dependents notification", p1)
+        walk = [(bb, ee) for bb, _, ee in f.calls(DVI + "::noteValueSwapped")]
+        chk.judge(bool(walk) and all(_in_loop(f, bb) or var_of(call_obj(ee)) == dvar for bb, ee in walk), "EFFECT", f.id + ":swapped-vars-notify-dependents", site,
+                  "noteValueSwapped() is applied to the swapped variables (loop over the recorded list)")
+        # the notification loop comes after the swap loops (swaps are simultaneous)
+        for bb, ee in walk:
+            chk.judge(not _reaches(f, bb, b), "EFFECT", f.id + ":notify-after-all-swaps", site, "dependents are notified only after all swaps were made")
     # markCacheValueRealized / NotRealized forward to the entry
     for name, callee in ((SI + "::markCacheValueRealized", CEI + "::markAsUpToDate"), (SI + "::markCacheValueNotRealized", CEI + "::invalidate")):
         f = P.fn(name)
@@ -587,7 +606,7 @@ WRITERS = {
     SI + "::qVersion": {SI + "::noteQChange", SI + "::invalidateCopiedStageVersions", SI + "::copyFrom"},
     SI + "::uVersion": {SI + "::noteUChange", SI + "::invalidateCopiedStageVersions", SI + "::copyFrom"},
     SI + "::zVersion": {SI + "::noteZChange", SI + "::invalidateCopiedStageVersions", SI + "::copyFrom"},
-    DVI + "::m_valueVersion": {DVI + "::updValue"},
+    DVI + "::m_valueVersion": {DVI + "::updValue", DVI + "::swapValue"},
     CEI + "::m_valueVersion": {CEI + "::invalidate"},
     CEI + "::m_dependsOnVersionWhenLastComputed": {CEI + "::invalidate", CEI + "::markAsUpToDate"},
     CEI + "::m_isUpToDateWithPrerequisites": {CEI + "::invalidate", CEI + "::markAsUpToDate", CEI + "::registerWithPrerequisites"},
@@ -702,6 +721,15 @@ def forward(chk, P):
 _H = "SimTKcommon/Simulation/include/SimTKcommon/internal/StateImpl.h"
 _C = "SimTKcommon/Simulation/src/State.cpp"
 MUTATIONS = [
+    dict(name="auto-update swap without version bump (pre-fix code)", file=_H,
+         old="    {   m_value.swap(other); ++m_valueVersion; m_timeLastUpdated=updTime; }", new="    {   m_value.swap(other); m_timeLastUpdated=updTime; }",
+         expect="swapValue(SimTK::Real,SimTK::ClonePtr<SimTK::AbstractValue> &):++m_valueVersion"),
+    dict(name="auto-update swap without dependents notification (pre-fix code)", file=_C,
+         old="    for (DiscreteVarInfo* dinfo : swapped)\n        dinfo->noteValueSwapped(*this);\n", new="", expect="swapped-vars-notify-dependents"),
+    dict(name="seeded (sub-agent): invalidate() short-circuits when already out of date", file=_H,
+         old="    void invalidate(const StateImpl& stateImpl) {\n        m_dependsOnVersionWhenLastComputed = StageVersion(0);",
+         new="    void invalidate(const StateImpl& stateImpl) {\n        if (!m_isUpToDateWithPrerequisites)\n            return;\n        m_dependsOnVersionWhenLastComputed = StageVersion(0);",
+         expect="CacheEntryInfo::invalidate(const SimTK::StateImpl &):notify-dependents"),
     dict(name="copy leaves later stage versions untouched (pre-fix code)", arm=True, file=_C,
          old="    for (int i=targetStage+1; i<Stage::NValid; ++i)\n        stageVersions[i] = src.stageVersions[i] + 1;",
          new="    for (int i=targetStage+1; i<=src.currentStage; ++i)\n        stageVersions[i] = src.stageVersions[i] + 1;", expect="versions-cover-all-stages"),
